@@ -59,6 +59,7 @@ pub fn claim_of(p: &Params) -> Option<&'static str> {
 /// check can reuse the family and still report only what belongs to it).
 pub fn unclaim(p: &Params, mut prog: Program) -> Program {
     crate::world::DEFAULT_POP.store(p.get("dpop", 0b11) as u8, std::sync::atomic::Ordering::Relaxed);
+    crate::scen::ebr::SURVIVOR_NESTS.store(p.get("nested", 0) != 0, std::sync::atomic::Ordering::Relaxed);
     if p.get("noclaim", 0) != 0 {
         prog.claim = None;
     }
